@@ -24,11 +24,19 @@ EQ = ("_RNvXs2_NtNtCs8xvirJzNMvV_4core5slice3cmpINtNtCs6xMQmN1AWUs_5alloc5boxed3
 IQ = "_RNvXsb_NtNtCs6qibz2J5iDx_14aranya_runtime7storage6linearINtB5_15LinearFactIndexNtNtB5_13___verif_facts5VReadENtB7_5Query5queryB9_.0"
 
 
+# `loop { .. }` of the session merge iterator's next(): at most (#session items + 1) iterations per call
+QM = ("_RNvXs3_NtNtCs6qibz2J5iDx_14aranya_runtime6client7sessionINtB5_13QueryIteratorNtNtB5_23___verif_session_overlay5VIterNtB1f_5CIter"
+      "ENtNtNtNtCs8xvirJzNMvV_4core4iter6traits8iterator8Iterator4nextB9_.0")
+QY = ("_RNvXs3_NtNtCs6qibz2J5iDx_14aranya_runtime6client7sessionINtB5_13QueryIteratorNtNtB5_23___verif_session_overlay5VIterINtB5_8YokeIter"
+      "NtB5_10PrefixIterINtNtCs6xMQmN1AWUs_5alloc4sync3ArcINtNtB9_6___vmap8BTreeMapNtNtB2r_6string6StringIB2V_NtNtB9_7storage4KeysINtNtCs8xvirJzNMvV_"
+      "4core6option6OptionINtNtB2r_5boxed3BoxShEEEEEEENtNtNtNtB49_4iter6traits8iterator8Iterator4nextB9_.0")
+
+
 def args(mem, comps):
     """mem: memcmp bound (3 = byte strings of <= 2 bytes, 33 = 32-byte command ids);
     comps: max components per compound key."""
     return ["--no-memory-safety-checks", "--cbmc-args", "--unwindset",
-            f"memcmp.0:{mem},{DG}:{comps + 1},{CH}:{comps + 1},{TV}:{comps + 1},{EQ}:{comps + 1},{IQ}:4"]
+            f"memcmp.0:{mem},{DG}:{comps + 1},{CH}:{comps + 1},{TV}:{comps + 1},{EQ}:{comps + 1},{IQ}:4,{QM}:4,{QY}:4"]
 
 
 S3, S33, X3, X33 = args(3, 1), args(33, 1), args(3, 2), args(33, 2)
